@@ -572,13 +572,21 @@ def run(chk) -> None:
     chk.robust |= {"stack-roles", "stack-skips", "stack-extra-filter", "stack-offset-vector", "stack-direction", "centroid-register", "model-filter", "same-residue-identity"}
     store = "pairs"
     try:
-        sites = c03e.build_sites(fi, loop)
+        sites = c03e.build_sites(fi, loop, repo)
         if "residue" not in sites.maps.values():
             raise c03e.NotReadable("no dictionary maps a centroid back to its residue")
         raw = [l for l in fi.node.body if isinstance(l, ast.For) and l.lineno == sites.res_loop.lineno]
-        c03e.check_model_filter(chk, fi, sites.res_loop, sites.res_var, sites.res_paths)
-        _centroid(chk, fi, fm, inl, raw[0] if raw else sites.res_loop)
-        c04e.check_registration(chk, fi, sites)
+        if sites.byvalue is not None:
+            chk.ok("reading", fi.where, f"registration read by value on stand-in residues: {sites.byvalue['why'][:100]}")
+            c03e.model_filter_by_value(chk, fi, sites)
+            if not c04e.centroid_by_value(chk, fi, sites.points):
+                raise c03e.NotReadable("centroid not evaluable")
+        else:
+            c03e.check_model_filter(chk, fi, sites.res_loop, sites.res_var, sites.res_paths)
+            # the centroid: by value when the statements before the KD-tree can be evaluated, by collection descriptors otherwise
+            if not c04e.centroid_by_value(chk, fi, sites.points):
+                _centroid(chk, fi, fm, inl, raw[0] if raw else sites.res_loop)
+                c04e.check_registration(chk, fi, sites)
         from checks.c03 import _eq_fields
 
         store = c04e.check_pair_loop(chk, fi, loop, sites, c, fold, make_label_of(repo), _eq_fields)
